@@ -104,6 +104,8 @@ type Engine struct {
 	curItem          map[*Interp]*ssa.Function
 	errLines         []string
 	forks            map[string]int
+	built            sync.Map
+	buildMu          sync.Mutex
 	errT             types.Type
 	WantCoverWitness bool
 	Bounds           map[string]map[string]int
@@ -131,6 +133,20 @@ func (e *Engine) pushFor(h *ssa.Function, prefix []int) {
 	e.stack = append(e.stack, workItem{h, prefix})
 	e.mu.Unlock()
 	e.cond.Signal()
+}
+
+// ensureBuilt builds a package's SSA bodies exactly once, before any worker looks at them
+// (checking fn.Blocks instead would race with a build in progress on another worker).
+func (e *Engine) ensureBuilt(p *ssa.Package) {
+	if _, ok := e.built.Load(p); ok {
+		return
+	}
+	e.buildMu.Lock()
+	if _, ok := e.built.Load(p); !ok {
+		p.Build()
+		e.built.Store(p, true)
+	}
+	e.buildMu.Unlock()
 }
 
 func (e *Engine) noteFork(where string) {
